@@ -142,3 +142,24 @@ def repro_text(d):
                 f"m = ModelCompiler().read_and_parse_dict({{'Sheet1!Z1': {d['formula']!r}}})\n"
                 "print(Evaluator(m).evaluate('Sheet1!Z1'))")
     return f"# xl.FUNCTIONS[{d['case']['f']!r}](*args) with args = {json.dumps(d['case']['args'])}"
+
+
+def replay_file(path):
+    """--replay for call-style disagreements written by Run.finish()"""
+    d = json.load(open(path))
+    case = d['case']
+    clause = d.get('clause')
+    if clause in ('formula', 'formula-stored') or case.get('path') == 'formula':
+        obs, stored, text = formula_call(case['f'], case['args'])
+        if clause == 'formula-stored':
+            obs = stored
+    else:
+        sp = clause if clause in ('wrapped', 'numpy', 'float', 'text', 'wtext', 'wfloat') else case.get('path', 'native')
+        obs = direct_call(case['f'], case['args'], 'native' if sp == 'direct' else sp)
+    ok = agrees(obs, d['expected'])
+    print('case', json.dumps(case), '\nexpected', d['expected'], '\nobserved', obs)
+    if ok is False:
+        print(f"VIOLATION property={d['property']} replay={path}")
+        return 1
+    print('agrees now')
+    return 0
